@@ -9,9 +9,12 @@ or a side-effect-free expression:
                        `if (<operand> > '<c>')` with the signedness of its operand, the
                        index expression of the table read, the invalid marker and the pad
                        character;  fromHex: the alphabet and both index expressions
-  include/nstd/Unicode.hpp   `utf8Offsets`, `length(char)` as an if-chain, the range tests
-                       and byte expressions of the UTF-8 branch of `append(uint32, String&)`,
-                       the first-byte test of `fromString`
+  include/nstd/Unicode.hpp   `utf8Offsets`, `length(char)` (256 values by EXECUTING harness/codec_probe.cpp
+                       built from the current sources), the range tests and byte expressions of the
+                       UTF-8 branch of `append(uint32, String&)`, the first-byte test of `fromString`
+  include/nstd/String.hpp + src/String.cpp   `String::isSpace(char)`, `toLowerCase(char)`, `toUpperCase(char)`
+                       (= the case maps): 256 values each, by executing the same probe (which links
+                       String.cpp and Memory.cpp of the current sources)
 
 The theorems of Nstd/Codec are stated over these generated definitions, so they are
 re-checked against what the code says now.  Anything that cannot be found is a broken tie
